@@ -101,7 +101,7 @@ func cmdCheck(prop, tier string) int {
 	if s := os.Getenv("VERIF_SEED"); s != "" {
 		seed, _ = strconv.Atoi(s)
 	}
-	cfg := runCfg{tier: tier, timeoutMs: 30000, jobs: 7}
+	cfg := runCfg{tier: tier, timeoutMs: 60000, jobs: 5}
 	if tier == "thorough" {
 		cfg.timeoutMs = 120000
 		cfg.allSolver = true
@@ -113,6 +113,7 @@ func cmdCheck(prop, tier string) int {
 		return 2
 	}
 	x := s.x
+	x.tier = tier
 	var keys []string
 	var bindErrs []string
 	for _, k := range s.specs.Order {
@@ -277,6 +278,9 @@ func cmdCheck(prop, tier string) int {
 			for _, en := range c.Ensures {
 				if clauseHasTag(en, "assumed") {
 					assumptions = append(assumptions, "postcondition of "+k+" ASSUMED, not proved: "+en.Src)
+				}
+				if clauseHasTag(en, "slow") && tier != "thorough" {
+					assumptions = append(assumptions, "postcondition of "+k+" proved in the thorough tier only (solver time above the quick budget), assumed here: "+en.Src)
 				}
 			}
 		}
